@@ -91,3 +91,42 @@ func TestSweepFalseTmp(t *testing.T) {
 	}
 	fmt.Printf("SWEEPF cases=%d bad=%d\n", n, bad)
 }
+
+// temporary: every single true override (a newer-than-target feature of the input) × snippet × target
+func TestSweepTrueSingleTmp(t *testing.T) {
+	if os.Getenv("C14_SWEEP") == "" {
+		t.Skip()
+	}
+	setup(t)
+	defer teardown()
+	var inputs []string
+	inputs = append(inputs, jslib.Families...)
+	inputs = append(inputs, jslib.RareSnippets...)
+	n, bad := 0, 0
+	seen := map[string]bool{}
+	for i, code := range inputs {
+		p, err := jsref.Parse(code, jsref.Options{Module: true})
+		if err != nil {
+			continue
+		}
+		for ti, tn := range esNames {
+			names, _ := overEditionNames(p, editionOf(tn))
+			for j, f := range names {
+				k := (i + j + ti) % 4
+				c := Case{Code: code, Target: tn, Supported: []string{f}, Source: "sweep", Bundle: k&1 != 0, Minify: k&2 != 0}
+				c.Format = []string{"", "esm", "cjs", "iife"}[(i+j+ti)%4]
+				v := judge(c)
+				n++
+				if !v.OK && v.Discard == "" {
+					bad++
+					key := v.Known + "|" + f
+					if v.Known == "" || !seen[key] {
+						fmt.Printf("SWEEP-FAIL known=%q %s\n  case=%+v\n", v.Known, v.Detail, c)
+					}
+					seen[key] = true
+				}
+			}
+		}
+	}
+	fmt.Printf("SWEEPT cases=%d bad=%d\n", n, bad)
+}
